@@ -492,3 +492,28 @@ func (r *Registry) sortedNotes() []string {
 	sort.Strings(out)
 	return out
 }
+
+// ensureSort declares a datatype sort that was first registered in another registry
+// (heap keys computed by the module-wide write/read-set analysis name such sorts).
+func (r *Registry) ensureSort(name string, from *Registry) {
+	if r.sortSeen[name] || from == nil {
+		return
+	}
+	if strings.HasPrefix(name, "(Array ") {
+		k, v := splitArraySort(name)
+		r.ensureSort(k, from)
+		r.ensureSort(v, from)
+		return
+	}
+	if elem, ok := from.sliceElem[name]; ok {
+		r.ensureSort(elem, from)
+		r.sliceSort(elem)
+		return
+	}
+	if si, ok := from.structOf[name]; ok {
+		for _, f := range si.fields {
+			r.ensureSort(f.sort, from)
+		}
+		r.structSort(si.named, si.st)
+	}
+}
